@@ -272,3 +272,140 @@ Proof.
   destruct (fuel_enough_all f) as (He & _). apply He in H. destruct H as (n & L & G & B).
   unfold parse_tokens. rewrite B; [reflexivity|]. unfold fuel_of, len in *. simpl in L. lia.
 Qed.
+
+(* ------------------------------------------------------------------ lexer *)
+From Coq Require Import DecimalString Decimal DecimalN DecimalPos.
+
+Fixpoint all_chars (p : ascii -> bool) (s : string) : bool :=
+  match s with EmptyString => true | String c r => p c && all_chars p r end.
+Definition ident_ok (s : string) : bool :=
+  match s with EmptyString => false | String c r => is_alpha c && all_chars is_alnum r end.
+
+Fixpoint strip (ts : list token) : list token :=
+  match ts with [] => [] | TSp :: r => strip r | t :: r => t :: strip r end.
+
+Lemma string_app_assoc (a b c : string) : ((a ++ b) ++ c = a ++ (b ++ c))%string.
+Proof. induction a; simpl; congruence. Qed.
+
+Lemma lex_digits s : all_chars is_digit s = true -> forall cur rest,
+  lex_go (LNum cur) (s ++ rest) = lex_go (LNum (cur ++ s)) rest.
+Proof.
+  induction s as [|c s IH]; intros H cur rest; simpl in *.
+  - replace (cur ++ "")%string with cur; auto. clear. induction cur; simpl; congruence.
+  - apply andb_true_iff in H. destruct H as [Hc Hs]. rewrite Hc. rewrite IH by auto.
+    unfold snoc. rewrite string_app_assoc. reflexivity.
+Qed.
+
+Lemma lex_alnums s : all_chars is_alnum s = true -> forall cur rest,
+  lex_go (LName cur) (s ++ rest) = lex_go (LName (cur ++ s)) rest.
+Proof.
+  induction s as [|c s IH]; intros H cur rest; simpl in *.
+  - replace (cur ++ "")%string with cur; auto. clear. induction cur; simpl; congruence.
+  - apply andb_true_iff in H. destruct H as [Hc Hs]. rewrite Hc. rewrite IH by auto.
+    unfold snoc. rewrite string_app_assoc. reflexivity.
+Qed.
+
+Lemma uint_digits d : all_chars is_digit (NilEmpty.string_of_uint d) = true.
+Proof. induction d; simpl; auto. Qed.
+
+Lemma N_to_uint_nonnil n : N.to_uint n <> Nil.
+Proof. destruct n; simpl; [discriminate|apply Unsigned.to_uint_nonnil]. Qed.
+
+Lemma N_to_string_eq n : N_to_string n = NilEmpty.string_of_uint (N.to_uint n).
+Proof. unfold N_to_string, NilZero.string_of_uint. pose proof (N_to_uint_nonnil n). destruct (N.to_uint n); congruence. Qed.
+
+Lemma N_to_string_digits n : exists c s, N_to_string n = String c s /\ is_digit c = true /\ all_chars is_digit s = true.
+Proof.
+  rewrite N_to_string_eq. pose proof (N_to_uint_nonnil n) as Hn. pose proof (uint_digits (N.to_uint n)) as Hd.
+  destruct (N.to_uint n); try congruence; simpl in *; eexists; eexists; split; try reflexivity; split; auto.
+Qed.
+
+Lemma num_roundtrip n : num_of_string (N_to_string n) = Some n.
+Proof.
+  unfold num_of_string. rewrite N_to_string_eq. rewrite NilEmpty.usu. rewrite DecimalN.Unsigned.of_to. reflexivity.
+Qed.
+
+(* the lexeme still open after a token *)
+Inductive pend := PNone | PNum (n : N) | PName (s : string) | PStar.
+Definition pend_of (t : token) : pend :=
+  match t with TNum n => PNum n | TName s => PName s | TStar => PStar | _ => PNone end.
+Definition st_of (p : pend) : lstate :=
+  match p with PNone => LNone | PNum n => LNum (N_to_string n) | PName s => LName s | PStar => LStar end.
+Definition ptoks (p : pend) : list token :=
+  match p with PNone => [] | PNum n => [TNum n] | PName s => [TName s] | PStar => [TStar] end.
+
+(* which token may follow which without changing the token sequence *)
+Definition adj1 (p : pend) (t : token) : bool :=
+  match p, t with
+  | (PNum _ | PName _), (TNum _ | TName _) => false
+  | PStar, (TStar | TPow) => false
+  | _, _ => true
+  end.
+Definition tok_ok (t : token) : bool := match t with TName s => ident_ok s | _ => true end.
+Fixpoint adj (p : pend) (ts : list token) : bool :=
+  match ts with [] => true | t :: r => adj1 p t && tok_ok t && adj (pend_of t) r end.
+
+Lemma flush_st p : flush (st_of p) = Some (ptoks p).
+Proof. destruct p; simpl; auto. rewrite num_roundtrip. reflexivity. Qed.
+
+Lemma ocons_some a b : ocons (Some a) (Some b) = Some (a ++ b).
+Proof. reflexivity. Qed.
+
+Lemma lex_special p c r toks :
+  is_digit c = false -> is_alpha c = false -> Ascii.eqb c "*" = false -> single_tok c = Some toks ->
+  lex_go (st_of p) (String c r) = ocons (Some (ptoks p)) (ocons (Some toks) (lex_go LNone r)).
+Proof.
+  intros Hd Ha Hs Ht. rewrite <- flush_st. destruct p; simpl st_of; simpl lex_go; unfold is_alnum;
+    rewrite ?Hd, ?Ha, ?Hs, ?Ht; simpl; auto.
+  destruct (lex_go LNone r); reflexivity.
+Qed.
+
+Theorem lex_render : forall ts p, adj p ts = true ->
+  lex_go (st_of p) (render ts) = Some (ptoks p ++ strip ts).
+Proof.
+  induction ts as [|t ts IH]; intros p H.
+  - simpl. rewrite flush_st. rewrite app_nil_r. reflexivity.
+  - simpl in H. apply andb_true_iff in H. destruct H as [H Hr]. apply andb_true_iff in H. destruct H as [H1 Hok].
+    specialize (IH _ Hr). simpl render.
+    destruct t; simpl render_tok; simpl pend_of in IH; simpl st_of in IH; simpl ptoks in IH.
+    + (* number *)
+      destruct (N_to_string_digits n) as (c & s & E & Hc & Hs).
+      assert (Hna : is_alpha c = false).
+      { revert Hc. unfold is_digit, is_alpha. destruct (nat_of_ascii c) as [|k] eqn:En; simpl; auto.
+        intros Hc. apply andb_true_iff in Hc. destruct Hc as [A B].
+        apply Nat.leb_le in A, B. repeat (destruct k as [|k]; [simpl; try reflexivity; try lia|]); simpl; lia. }
+      rewrite E in *. destruct p; simpl in H1; try discriminate; simpl st_of; simpl lex_go; rewrite Hc.
+      * rewrite (lex_digits s Hs). simpl append. rewrite IH. reflexivity.
+      * assert (Hst : Ascii.eqb c "*" = false).
+        { destruct (Ascii.eqb c "*") eqn:Es; auto. apply Ascii.eqb_eq in Es. subst c. discriminate. }
+        rewrite Hst. rewrite (lex_digits s Hs). simpl append. rewrite IH. reflexivity.
+    + (* name *)
+      simpl in Hok. destruct s as [|c s]; [discriminate|]. simpl in Hok. apply andb_true_iff in Hok. destruct Hok as [Hc Hs].
+      assert (Hnd : is_digit c = false).
+      { revert Hc. unfold is_digit, is_alpha. destruct (nat_of_ascii c) as [|k] eqn:En; simpl; auto.
+        intros Hc. destruct ((48 <=? S k)%nat && (S k <=? 57)%nat) eqn:Ed; auto.
+        apply andb_true_iff in Ed. destruct Ed as [A B]. apply Nat.leb_le in A, B.
+        repeat (destruct k as [|k]; [simpl in *; try discriminate; try lia|]). lia. }
+      destruct p; simpl in H1; try discriminate; simpl st_of; simpl append; simpl lex_go; rewrite Hnd, Hc.
+      * rewrite (lex_alnums s Hs). simpl append. rewrite IH. reflexivity.
+      * assert (Hst : Ascii.eqb c "*" = false).
+        { destruct (Ascii.eqb c "*") eqn:Es; auto. apply Ascii.eqb_eq in Es. subst c. discriminate. }
+        rewrite Hst. rewrite (lex_alnums s Hs). simpl append. rewrite IH. reflexivity.
+    + simpl append. rewrite (lex_special p "+" _ [TPlus]) by reflexivity. rewrite IH. destruct p; reflexivity.
+    + simpl append. rewrite (lex_special p "-" _ [TMinus]) by reflexivity. rewrite IH. destruct p; reflexivity.
+    + (* star *)
+      simpl append. destruct p; simpl in H1; try discriminate; simpl st_of; simpl lex_go.
+      * rewrite IH. reflexivity.
+      * rewrite flush_num. rewrite IH. reflexivity.
+      * unfold is_alnum. simpl. rewrite IH. reflexivity.
+    + simpl append. rewrite (lex_special p "/" _ [TSlash]) by reflexivity. rewrite IH. destruct p; reflexivity.
+    + (* ** *)
+      simpl append. destruct p; simpl in H1; try discriminate; simpl st_of; simpl lex_go.
+      * rewrite IH. reflexivity.
+      * rewrite flush_num. rewrite IH. reflexivity.
+      * unfold is_alnum. simpl. rewrite IH. reflexivity.
+    + simpl append. rewrite (lex_special p "(" _ [TLp]) by reflexivity. rewrite IH. destruct p; reflexivity.
+    + simpl append. rewrite (lex_special p ")" _ [TRp]) by reflexivity. rewrite IH. destruct p; reflexivity.
+    + simpl append. rewrite (lex_special p "," _ [TComma]) by reflexivity. rewrite IH. destruct p; reflexivity.
+    + simpl append. rewrite (lex_special p " " _ []) by reflexivity. rewrite IH. destruct p; reflexivity.
+Qed.
